@@ -188,8 +188,11 @@ func (w *worker[T, JobType]) releaseWaiters(processing uint32) {
 
 	// Only release waiters if worker is paused or if running with an empty queue
 	if w.IsPaused() || (w.IsRunning() && w.queues.Len() == 0) {
-		// Broadcast to all waiters to signal they can continue
+		// Broadcast under the lock: a waiter evaluates its condition while holding
+		// the lock, so the wake-up cannot fall between its check and its Wait.
+		w.mx.Lock()
 		w.waiters.Broadcast()
+		w.mx.Unlock()
 	}
 }
 
@@ -232,6 +235,23 @@ func (w *worker[T, JobType]) Errs() <-chan error {
 
 // processNextJob processes the next Job in the queue.
 func (w *worker[T, JobType]) processNextJob() error {
+	// reserve a processing slot before the job leaves the queue, so that a job is
+	// never outside both the pending and the in-flight count
+	w.curProcessing.Add(1)
+
+	return w.processReservedJob()
+}
+
+// processReservedJob takes the next job from the queue and dispatches it on the slot
+// reserved by the caller; the slot is released again when nothing is dispatched.
+func (w *worker[T, JobType]) processReservedJob() (err error) {
+	dispatched := false
+	defer func() {
+		if !dispatched {
+			w.releaseWaiters(w.curProcessing.Add(^uint32(0)))
+		}
+	}()
+
 	queue, err := w.queues.next()
 
 	if err != nil {
@@ -281,7 +301,7 @@ func (w *worker[T, JobType]) processNextJob() error {
 		return nil
 	}
 
-	w.curProcessing.Add(1)
+	dispatched = true
 	j.changeStatus(processing)
 	j.setAckId(ackId)
 
@@ -425,7 +445,17 @@ func (w *worker[T, JobType]) goEventLoop() {
 	go func(signal <-chan struct{}) {
 		for range signal {
 			for w.IsRunning() && w.curProcessing.Load() < w.concurrency.Load() && w.queues.Len() > 0 {
-				if err := w.processNextJob(); err != nil {
+				// Reserve the slot first, then look at the status again: Pause/Stop store
+				// the new status and then wait for curProcessing to drop to zero, so either
+				// they see this reservation or we see their status change.
+				w.curProcessing.Add(1)
+
+				if !w.IsRunning() {
+					w.releaseWaiters(w.curProcessing.Add(^uint32(0)))
+					break
+				}
+
+				if err := w.processReservedJob(); err != nil {
 					w.sendError(err)
 				}
 			}
